@@ -584,6 +584,31 @@ func TestVerifC08(t *testing.T) {
 			}
 		}
 	}
+	// F1b: length-prefix boundaries. The Cert length and the enclosing Details length are varints: sweep the cert length across
+	// every point where either prefix grows a byte (1->2 at 128, 2->3 at 16384, 3->4 at 2097152; "any cert bytes").
+	var lens []int
+	for _, b := range []int{128, 16384, 2097152} {
+		for d := -40; d <= 4; d++ { // the other fields add up to 32 bytes in front of the boundary of the Details length
+			lens = append(lens, b+d)
+		}
+	}
+	lens = append(lens, 65535, 65536, 1<<20)
+	var f1b int64
+	for _, n := range lens {
+		ce := bytes.Repeat([]byte{0x5a}, n)
+		ce[0], ce[n-1] = 0x01, 0xfe
+		for _, small := range []bool{true, false} {
+			p := handshake.Payload{Cert: ce}
+			if !small {
+				p = handshake.Payload{Cert: ce, InitiatorIndex: 1<<32 - 1, ResponderIndex: 1<<32 - 1, Time: math.MaxUint64, CertVersion: 1<<32 - 1}
+			}
+			c08CheckValue(c, st, p, &byteIdentical)
+			f1b++
+		}
+	}
+	c.Set("length_prefix_boundary_payloads", f1b)
+	f1 += f1b
+
 	// schema message without a Details member at all
 	for _, m := range []*c08Handshake{{}, {Hmac: []byte{9}}} {
 		wire, _ := gogoproto.Marshal(m)
